@@ -333,10 +333,10 @@ func parseSpecHeader(s string) (*SpecFunc, error) {
 	sf := &SpecFunc{Name: m[2], Ret: m[4], Src: m[5], Rec: m[1] != ""}
 	for _, p := range splitTop(m[3]) {
 		fs := strings.Fields(p)
-		if len(fs) != 2 {
+		if len(fs) < 2 {
 			return nil, fmt.Errorf("malformed spec param %q", p)
 		}
-		sf.Params = append(sf.Params, specParam{fs[0], fs[1]})
+		sf.Params = append(sf.Params, specParam{fs[0], strings.Join(fs[1:], " ")})
 	}
 	return sf, nil
 }
